@@ -9,6 +9,7 @@ import (
 	"sort"
 	"strconv"
 	"strings"
+	"syscall"
 	"time"
 )
 
@@ -135,6 +136,22 @@ func (t *tree) materialize(root string) error {
 				return err
 			}
 		case 'x':
+			if len(p) >= 4096 {
+				// beyond PATH_MAX: an entry nobody can examine through its full path - for a listing the same
+				// as a dangling link (omitted). Created as a regular file through its parent directory.
+				d, err := os.Open(filepath.Dir(p))
+				if err != nil {
+					return err
+				}
+				fd, err := syscall.Openat(int(d.Fd()), filepath.Base(p), syscall.O_CREAT|syscall.O_WRONLY, 0o644)
+				d.Close()
+				if err != nil {
+					return err
+				}
+				syscall.Write(fd, []byte("unreachable"))
+				syscall.Close(fd)
+				continue
+			}
 			if err := os.Symlink("does-not-exist-anywhere", p); err != nil {
 				return err
 			}
@@ -282,6 +299,11 @@ func snapshot(root string, sessionStart int64) (string, error) {
 	}
 	err := filepath.Walk(root, func(p string, info os.FileInfo, err error) error {
 		if err != nil {
+			if len(p) >= 4096 {
+				// an entry beyond PATH_MAX (see materialize, kind 'x'): recorded like the link it stands for
+				lines = append(lines, fmt.Sprintf("%s:l", hx([]byte(strings.TrimPrefix(p, root)))))
+				return nil
+			}
 			return err
 		}
 		rel := strings.TrimPrefix(p, root)
